@@ -183,6 +183,45 @@ Proof.
     + rewrite O in Hin by exact Nm. apply Old. exact Hin.
 Qed.
 
+(** the critical section of invalidate, shared by FInvList and FRelEnter *)
+Lemma inv_step_edge : forall s n k s1 st sp others F0,
+  inv_step s n k = Some (s1, st, sp) ->
+  (forall to, pending F0 to -> to = n \/ pending (k ++ others) to) ->
+  edge_on (s_nodes s) F0 ->
+  edge_on (s_nodes s1) (st ++ others ++ concat sp).
+Proof.
+  intros s n k s1 st sp others F0 H HF Inv. unfold inv_step in H.
+  destruct (Nat.ltb n (length (s_nodes s))) eqn:G2; [|discriminate]. apply Nat.ltb_lt in G2.
+  destruct (n_inv (getN s n)) eqn:Ia.
+  - inversion H; subst; clear H. eapply edge_on_frames; [|exact Inv].
+    intros to P. destruct (HF to P) as [->|P']; [right; exact Ia|].
+    left. eapply pending_incl; [|exact P']. intros f Hf. rewrite !in_app_iff in *. simpl. tauto.
+  - assert (K : edge_on (g_inv_mark (s_nodes s) n) ((FInvList (n_out (getN s n)) :: k) ++ others)).
+    { destruct Inv as [C E]. unfold g_inv_mark. split.
+      - intros m to Hin. rewrite length_setn. rewrite getn_setn in Hin.
+        destruct (Nat.eqb n m && Nat.ltb n (length (s_nodes s))) eqn:E1.
+        + apply andb_true_iff in E1. destruct E1 as [E1 _]. apply Nat.eqb_eq in E1. subst m. simpl in Hin. eapply C; eauto.
+        + eapply C; eauto.
+      - intros m to Hin Hinv.
+        assert (Mono : forall x, n_inv (getn (s_nodes s) x) = true -> n_inv (getn (setn (s_nodes s) n (set_inv (getn (s_nodes s) n))) x) = true).
+        { intros x Hx. rewrite getn_setn. destruct (Nat.eqb n x && Nat.ltb n (length (s_nodes s))); [reflexivity | exact Hx]. }
+        rewrite getn_setn in Hin, Hinv.
+        destruct (Nat.eqb n m && Nat.ltb n (length (s_nodes s))) eqn:E1.
+        + apply andb_true_iff in E1. destruct E1 as [E1 _]. apply Nat.eqb_eq in E1. subst m. simpl in Hin.
+          right. exists (FInvList (n_out (getN s n))). split; [left; reflexivity | exact Hin].
+        + destruct (E m to Hin Hinv) as [Q|Q]; [left; apply Mono; exact Q|].
+          destruct (HF to Q) as [->|P'].
+          * left. rewrite getn_setn_eq by exact G2. reflexivity.
+          * right. eapply pending_incl; [|exact P']. intros f Hf. simpl. right. exact Hf. }
+    destruct (n_hinv (getN s n)) as [r|].
+    + destruct (r_spawn (getr s r)); inversion H; subst; clear H; simpl;
+        (eapply edge_on_frames; [|exact K]); intros to P; left; (eapply pending_incl; [|exact P]);
+        intros f; simpl; rewrite !in_app_iff; simpl; tauto.
+    + inversion H; subst; clear H. simpl.
+      eapply edge_on_frames; [|exact K]. intros to P. left. eapply pending_incl; [|exact P].
+      intros f; simpl; rewrite !in_app_iff; simpl; tauto.
+Qed.
+
 (** ** one step of a task preserves the invariant *)
 Lemma step_top_edge : forall s f rest arg s1 st sp others,
   step_top s f rest arg = Some (s1, st, sp) ->
@@ -193,48 +232,19 @@ Proof.
   unfold step_top in H.
   destruct f; cbv beta iota zeta in H.
   - (* FInvList: the critical section of invalidate *)
-    destruct (memb arg l && Nat.ltb arg (length (s_nodes s))) eqn:G; [|discriminate].
-    apply andb_true_iff in G. destruct G as [G1 G2]. apply memb_In in G1. apply Nat.ltb_lt in G2.
-    destruct (n_inv (getN s arg)) eqn:Ia.
-    + inversion H; subst; clear H. eapply edge_on_frames; [|exact Inv].
-      intros to [g [Hin Hp]]. simpl in Hin. destruct Hin as [<-|Hin].
-      * simpl in Hp. destruct (Nat.eq_dec to arg) as [->|Nq]; [right; exact Ia|].
-        left. exists (FInvList (remove1 arg l)). split; [left; reflexivity | simpl; apply In_remove1_neq; assumption].
-      * left. exists g. split; [|exact Hp]. simpl. right. rewrite !in_app_iff in *. tauto.
-    + assert (K : edge_on (g_inv_mark (s_nodes s) arg)
-                    ((FInvList (n_out (getN s arg)) :: FInvList (remove1 arg l) :: rest) ++ others)).
-      { destruct Inv as [C E]. unfold g_inv_mark. split.
-        - intros n to Hin. rewrite length_setn. rewrite getn_setn in Hin.
-          destruct (Nat.eqb arg n && Nat.ltb arg (length (s_nodes s))) eqn:E1.
-          + apply andb_true_iff in E1. destruct E1 as [E1 _]. apply Nat.eqb_eq in E1. subst n. simpl in Hin. eapply C; eauto.
-          + eapply C; eauto.
-        - intros n to Hin Hinv.
-          assert (Mono : forall x, n_inv (getn (s_nodes s) x) = true -> n_inv (getn (setn (s_nodes s) arg (set_inv (getn (s_nodes s) arg))) x) = true).
-          { intros x Hx. rewrite getn_setn. destruct (Nat.eqb arg x && Nat.ltb arg (length (s_nodes s))); [reflexivity | exact Hx]. }
-          rewrite getn_setn in Hin, Hinv.
-          destruct (Nat.eqb arg n && Nat.ltb arg (length (s_nodes s))) eqn:E1.
-          + apply andb_true_iff in E1. destruct E1 as [E1 _]. apply Nat.eqb_eq in E1. subst n. simpl in Hin.
-            right. exists (FInvList (n_out (getN s arg))). split; [left; reflexivity | exact Hin].
-          + destruct (E n to Hin Hinv) as [K|[g [Gin Gp]]]; [left; apply Mono; exact K|].
-            simpl in Gin. destruct Gin as [<-|Gin].
-            * simpl in Gp. destruct (Nat.eq_dec to arg) as [->|Nq].
-              { left. rewrite getn_setn_eq by exact G2. reflexivity. }
-              { right. exists (FInvList (remove1 arg l)). split; [right; left; reflexivity | simpl; apply In_remove1_neq; assumption]. }
-            * right. exists g. split; [|exact Gp]. simpl. right. right. exact Gin. }
-      destruct (n_hinv (getN s arg)) as [r|].
-      * destruct (r_spawn (getr s r)); inversion H; subst; clear H; simpl;
-          (eapply edge_on_frames; [|exact K]); intros to P; left; (eapply pending_incl; [|exact P]);
-          intros f; simpl; rewrite !in_app_iff; simpl; tauto.
-      * inversion H; subst; clear H. simpl.
-        eapply edge_on_frames; [|exact K]. intros to P. left. eapply pending_incl; [|exact P].
-        intros f; simpl; rewrite !in_app_iff; simpl; tauto.
+    destruct (memb arg l) eqn:G1; [|discriminate]. apply memb_In in G1.
+    eapply inv_step_edge; [exact H | | exact Inv].
+    intros to [g [Hin Hp]]. simpl in Hin. destruct Hin as [<-|Hin].
+    + simpl in Hp. destruct (Nat.eq_dec to arg) as [->|Nq]; [left; reflexivity|].
+      right. exists (FInvList (remove1 arg l)). split; [left; reflexivity | simpl; apply In_remove1_neq; assumption].
+    + right. exists g. split; [|exact Hp]. simpl. right. exact Hin.
   - (* FStrobe *)
     inversion H; subst; clear H. eapply edge_on_frames; [|exact Inv]. keep_frames.
   - (* FRelEnter *)
-    inversion H; subst; clear H. eapply edge_on_frames; [|exact Inv].
-    intros to [g [Hin Hp]]. left. simpl in Hin. destruct Hin as [<-|Hin].
-    + simpl in Hp. subst. exists (FInvList [to]). split; [left; reflexivity | simpl; left; reflexivity].
-    + exists g. split; [|exact Hp]. simpl. rewrite !in_app_iff in *. tauto.
+    eapply inv_step_edge; [exact H | | exact Inv].
+    intros to [g [Hin Hp]]. simpl in Hin. destruct Hin as [<-|Hin].
+    + simpl in Hp. left. congruence.
+    + right. exists g. split; [|exact Hp]. simpl. right. exact Hin.
   - (* FRelMark *)
     destruct (n_rel (getN s n)).
     + inversion H; subst; clear H. eapply edge_on_frames; [|exact Inv]. keep_frames.
@@ -374,6 +384,7 @@ Proof.
   - (* FRunEnd *)
     inversion H; subst; clear H. simpl. eapply edge_on_frames; [|exact Inv]. keep_frames.
   - (* FArm *)
+    destruct (negb (n_inv (getN s c)) && match n_hinv (getN s c) with Some _ => true | None => false end); [discriminate|].
     destruct (g_handle_inv (s_nodes s) c r) as [g fired] eqn:GH.
     inversion H; subst; clear H. simpl.
     unfold g_handle_inv in GH. destruct (n_inv (getn (s_nodes s) c)); inversion GH; subst; clear GH.
